@@ -185,3 +185,25 @@ pub trait RaftStateMachine<C: RaftTypeConfig> {
     async fn get_current_snapshot(&mut self) -> Result<Option<Snapshot<C>>, io::Error>;
     async fn get_snapshot_builder(&mut self) -> Self::SnapshotBuilder;
 }
+
+// Display, as the real types have it (log messages format these)
+impl std::fmt::Display for LeaderId {
+    fn fmt(&self, f: &mut std::fmt::Formatter<'_>) -> std::fmt::Result {
+        write!(f, "T{}-N{}", self.term, self.node_id)
+    }
+}
+impl<C> std::fmt::Display for LogId<C> {
+    fn fmt(&self, f: &mut std::fmt::Formatter<'_>) -> std::fmt::Result {
+        write!(f, "{}.{}", self.leader_id, self.index)
+    }
+}
+impl<C> std::fmt::Display for Vote<C> {
+    fn fmt(&self, f: &mut std::fmt::Formatter<'_>) -> std::fmt::Result {
+        write!(f, "<{}:{}>", self.leader_id, if self.committed { "Q" } else { "-" })
+    }
+}
+impl<C> std::fmt::Display for Entry<C> {
+    fn fmt(&self, f: &mut std::fmt::Formatter<'_>) -> std::fmt::Result {
+        write!(f, "{}", self.log_id)
+    }
+}
